@@ -71,7 +71,8 @@ CASE_CPU_SECONDS_QUICK = 200.0
 FREE_TOK = {
     'HTML': ['<', '<d', '<dtml', '<dtml-', '</dtml-', '<!--', '<!--#', '-->',
              '>', '&', '&dtml', '&dtml-', '&dtml.', ';', '%', '%(', ')',
-             ')s', '"', '\n', ' ', 'x', '&dtml-x', '&dtml.q-x', '\r'],
+             ')s', '"', '\n', ' ', 'x', '&dtml-x', '&dtml.q-x', '\r',
+             '&dtml.q-', '-'],
     'String': ['%', '%(', ')', ')s', ')[', ')]', '%%', '(', 'x)', '<', '<dtml-',
                '>', '&dtml-', ';', '"', '\n', ' ', 'x', '[', ']', 's', '!',
                'var x', '-', '+', '#', 'S', '5', '.'],
@@ -79,12 +80,18 @@ FREE_TOK = {
 FRAGS = ['<', '<d', '<!--', '&dt', '%', '"', "'", '\n', ' \n', 'ab',
          '\t \n', '\r\n', '\xa0\n', '\x0c\n', '&dtml-', '&dtml.u', ';',
          '', ' ', ' \t',       # '' = the slot is empty; blanks only
+         '&dtml.u-;', '&dtml-;',
          '%(a) b', '%(a)-s', '%(a)#x ', '50%(b) of']
 NAMESPACES = [
     {'x': ['lit', 1], 'seq': ['seq', 'list', [['lit', 7], ['lit', 8]]]},
     {'x': ['lit', 0], 'seq': ['seq', 'list', [['lit', 7], ['lit', 8]]]},
     {'x': ['lit', 1], 'seq': ['seq', 'list', []]},
     {'x': ['lit', 0], 'seq': ['seq', 'list', []]},
+    # a condition whose answer changes from one evaluation to the next:
+    # every block asks for itself
+    {'x': ['probeseq', 'x', [['lit', 1], ['lit', 0], ['lit', 1],
+                             ['lit', 0], ['lit', 1]]],
+     'seq': ['seq', 'list', [['lit', 7], ['lit', 8]]]},
 ]
 COMMON = {'v': ['lit', 'V'], 'obj': ['obj', {'oa': ['lit', 'OA']}],
           'boom': ['raiser', 'b', 'HA', 'm']}
@@ -406,7 +413,8 @@ def run_deep(res, case):
     for texts in variants_:
         nodes = instantiate(shape, texts)
         k = check_template(res, nodes, {'fam': 'one-tagged', 'nodes': nodes},
-                           do_split=texts is default)
+                           do_split=texts is default,
+                           stateful=texts is default)
         n += k
         nt += k
         if res.sample is None:
@@ -480,7 +488,7 @@ def variants(nodes):
             yield sx, {'eol': eol}
 
 
-def check_template(res, nodes, sub, do_split=True):
+def check_template(res, nodes, sub, do_split=True, stateful=False):
     """tagged + split clauses for one instantiated template"""
     n = 0
     for sx, style in variants(nodes):
@@ -493,6 +501,8 @@ def check_template(res, nodes, sub, do_split=True):
         # with eol style the printer's own newline is what gets dropped
         top = top_level_offsets(nodes, sx, style)
         for ni, base in enumerate(NAMESPACES):
+            if ni >= 4 and not stateful:
+                continue
             ns = dict(COMMON)
             ns.update(base)
             got = render(cls, src, ns)
@@ -518,7 +528,9 @@ def check_template(res, nodes, sub, do_split=True):
                     {'source': src, 'namespace': ni, 'got': repr(got),
                      'expected': repr(exp)}, sub)
                 continue
-            if not do_split or isinstance(got, BaseException):
+            if not do_split or isinstance(got, BaseException) or ni >= 4:
+                # (composition is stated for namespaces, not for values that
+                # change with every use)
                 continue
             for i in top:
                 a, b = src[:i], src[i:]
@@ -586,7 +598,8 @@ def run_tagged(res, case):
         nodes = instantiate(shape, texts)
         sub = {'fam': 'one-tagged', 'nodes': nodes}
         k = check_template(res, nodes, sub,
-                           do_split=len(combo) <= case.get('splitdev', 1))
+                           do_split=len(combo) <= case.get('splitdev', 1),
+                           stateful=not combo)
         n += k
         if combo:
             nt += k
@@ -615,7 +628,7 @@ def run(case):
                         {'source': case['src'], 'got': repr(got)})
         res.nontrivial = True
     else:
-        check_template(res, case['nodes'], case)
+        check_template(res, case['nodes'], case, stateful=True)
         res.nontrivial = True
     res.outcome = fam
     return res
